@@ -13,6 +13,8 @@ type vNet struct {
 	fwdSeen      bool
 	dropFirstFwd bool // lose the first packet that carries a (I-)FORWARD-TSN
 	fwdDropped   bool
+	dups         map[int]bool // further duplicated positions (thorough tier)
+	drops        map[int]bool // further lost positions (thorough tier)
 }
 
 func (n *vNet) wire(x, y *Association) int {
@@ -36,9 +38,9 @@ func (n *vNet) wire(x, y *Association) int {
 			c++
 			continue
 		}
-		if n.idx != n.dropAt && (n.dropAt2 <= 0 || n.idx != n.dropAt2) {
+		if n.idx != n.dropAt && (n.dropAt2 <= 0 || n.idx != n.dropAt2) && !n.drops[n.idx] {
 			vInbound(y, raw)
-			if n.idx == n.dupAt {
+			if n.idx == n.dupAt || n.dups[n.idx] {
 				vInbound(y, raw)
 			}
 		}
@@ -65,6 +67,23 @@ func (n *vNet) settle(maxRounds, maxTimerRounds int) {
 			vFireAll(n.a)
 			vFireAll(n.b)
 		}
+	}
+}
+
+// vThoroughFaults (thorough tier): instead of one fault, any combination of up to two lost
+// packets and one duplicated packet among the first maxPos packets of the run.
+func (n *vNet) vThoroughFaults(maxPos int) {
+	n.dropAt, n.dropAt2, n.dupAt = -1, 0, -1
+	n.drops, n.dups = map[int]bool{}, map[int]bool{}
+	d1 := vPick(maxPos+1) - 1
+	if d1 >= 0 {
+		n.drops[d1] = true
+		if d2 := vPick(maxPos-d1) - 1; d2 >= 0 {
+			n.drops[d1+1+d2] = true
+		}
+	}
+	if c := vPick(maxPos+1) - 1; c >= 0 {
+		n.dups[c] = true
 	}
 }
 
@@ -108,16 +127,20 @@ func vh_C02_L1_reliable_transfer_one_fault() {
 		vassert(werr == nil && n == size, "write accepted")
 	}
 	net := &vNet{a: a, b: b, dropAt: -1, dupAt: -1}
-	switch vPick(4) {
-	case 1:
-		net.dropAt = vPick(8)
-	case 2:
-		net.dupAt = vPick(8)
-	case 3: // two packets lost
-		net.dropAt = vPick(5)
-		net.dropAt2 = net.dropAt + 1 + vPick(4)
+	if vtier() > 0 {
+		net.vThoroughFaults(8)
+	} else {
+		switch vPick(4) {
+		case 1:
+			net.dropAt = vPick(8)
+		case 2:
+			net.dupAt = vPick(8)
+		case 3: // two packets lost
+			net.dropAt = vPick(5)
+			net.dropAt2 = net.dropAt + 1 + vPick(4)
+		}
 	}
-	net.settle(32, 6)
+	net.settle(40, 8)
 	bs := b.streams[1]
 	vassert(bs != nil, "receiver has the stream")
 	if bs == nil {
@@ -224,7 +247,9 @@ func vh_C02_L2_zero_window() {
 		vassert(werr == nil, "write accepted")
 	}
 	net := &vNet{a: a, b: b, dropAt: -1, dupAt: -1}
-	if vPick(2) == 1 {
+	if vtier() > 0 {
+		net.vThoroughFaults(5)
+	} else if vPick(2) == 1 {
 		net.dropAt = vPick(4)
 	}
 	net.settle(12, 2) // the reader is paused
